@@ -6,7 +6,7 @@ Each worker owns a scratch worktree /tmp/rg_wt<i> of /repo HEAD (created and rem
 import argparse, glob, json, os, re, subprocess, sys, threading, queue, time
 V = "/verif"
 ap = argparse.ArgumentParser(); ap.add_argument("--workers", type=int, default=4); ap.add_argument("--only", default=""); ap.add_argument("--skip", default="")
-ap.add_argument("--kind", default="all"); a = ap.parse_args()
+ap.add_argument("--kind", default="all"); ap.add_argument("--name", default=""); a = ap.parse_args()
 only = set(filter(None, a.only.split(","))); skip = set(filter(None, a.skip.split(",")))
 props = {json.loads(l)["id"]: json.loads(l) for l in open(f"{V}/properties.jsonl")}
 def touched(patch):
@@ -25,9 +25,10 @@ if a.kind in ("all", "seeds"):
 if a.kind in ("all", "harmless"):
     for d in sorted(glob.glob(f"{V}/seeded/harmless/*")):
         pid = os.path.basename(d)[:3]
-        for q in sorted({pid} | anchored(touched(d + "/patch.diff"))):
+        own = {pid} if re.match(r"C\d\d$", pid) else set()      # probes named H7-… belong to no single property
+        for q in sorted(own | anchored(touched(d + "/patch.diff"))):
             jobs.append((os.path.basename(d), d + "/patch.diff", q, 0))
-jobs = [j for j in jobs if (not only or j[2] in only) and j[2] not in skip]
+jobs = [j for j in jobs if (not only or j[2] in only) and j[2] not in skip and (not a.name or j[0].startswith(a.name))]
 print(len(jobs), "runs", flush=True)
 H = subprocess.run(["git", "-C", "/repo", "rev-parse", "HEAD"], capture_output=True, text=True).stdout.strip()
 q = queue.Queue(); [q.put(j) for j in jobs]
